@@ -214,8 +214,7 @@ func (g *gen) fromTemplates(tpls []string, conn int) step {
 }
 
 // script generators per profile
-func (g *gen) script(profile string, n int) []step {
-	var st []step
+func (g *gen) script(profile string, n int) (st []step) {
 	switch profile {
 	case "str":
 		for i := 0; i < n; i++ {
@@ -254,6 +253,46 @@ func (g *gen) script(profile string, n int) []step {
 				st = append(st, g.fromTemplates(tplExpiry, 0))
 			}
 		}
+	case "reopen":
+		// C11: histories of all types with deletes, renames, TTL changes and intermediate SAVE / close-open cycles;
+		// every close/open is bracketed by probes that load every key
+		all := [][]string{tplKeys, tplStr, tplList, tplHash, tplSet, tplZset, tplExpiry}
+		for i := 0; i < n; i++ {
+			switch g.r.intn(16) {
+			case 0:
+				st = append(st, step{X: "PROBE"}, step{X: "REOPEN"}, step{X: "PROBE"})
+			case 1:
+				st = append(st, step{Conn: 0, Name: "SAVE"})
+			case 2:
+				st = append(st, step{X: "GC"})
+			default:
+				st = append(st, g.fromTemplates(all[g.r.intn(len(all))], 0))
+			}
+		}
+		st = append(st, step{X: "PROBE"}, step{X: "REOPEN"}, step{X: "PROBE"}, step{X: "PROBE"}, step{X: "REOPEN"}, step{X: "PROBE"})
+	case "evict":
+		// C12: no expiry commands (so that the run without passes is comparable), passes at arbitrary points
+		all := [][]string{tplKeys, tplStr, tplList, tplHash, tplSet, tplZset}
+		for i := 0; i < n; i++ {
+			switch g.r.intn(12) {
+			case 0, 1, 2:
+				k := 1 + g.r.intn(3)
+				for j := 0; j < k; j++ {
+					st = append(st, step{X: "GC"})
+				}
+			case 3:
+				st = append(st, step{X: "FLUSH"})
+			case 4:
+				st = append(st, step{Conn: 0, Name: "SCAN", Args: []string{lit("0"), lit("TYPE"), lit(g.r.pick([]string{"string", "list", "hash", "set", "zset"})), lit("COUNT"), lit("100")}})
+			default:
+				s := g.fromTemplates(all[g.r.intn(len(all))], 0)
+				if s.Name == "TTL" || s.Name == "PTTL" || s.Name == "PERSIST" {
+					s = step{Conn: 0, Name: "DBSIZE"}
+				}
+				st = append(st, s)
+			}
+		}
+		st = append(st, step{X: "PROBE"})
 	case "persist":
 		all := [][]string{tplKeys, tplStr, tplList, tplHash, tplSet, tplZset, tplExpiry}
 		for i := 0; i < n; i++ {
@@ -274,6 +313,7 @@ func (g *gen) script(profile string, n int) []step {
 		}
 	case "faults":
 		all := [][]string{tplStr, tplList, tplHash, tplSet}
+		defer func() { st = append(st, step{X: "FAULTS", Xarg: ""}, step{X: "PROBE"}) }()
 		for i := 0; i < n; i++ {
 			switch g.r.intn(10) {
 			case 0, 1, 2:
